@@ -17,13 +17,32 @@ theorem step_dotident {w : List Char} (hw : IdentShape w) {cs : List Char} (hs :
   have h3 : mDotIdent ('.' :: (w ++ cs)) = some ('.' :: w, cs) := by simp [mDotIdent, hm]
   simp only [List.cons_append, step, h1, h2, h3]
 
-/-- a module name: an identifier, or a dot followed by one -/
+theorem step_dot {cs : List Char} (hs : StopId cs) : step ('.' :: cs) = .token (.DOTIDENTIFIER ".") cs 0 := by
+  have h1 : mNL ('.' :: cs) = none := by simp [mNL, spanP]
+  have h2 : mIdent ('.' :: cs) = none := by simp [mIdent, isAlpha_]
+  have h3 : mIdent cs = none := by
+    cases cs with
+    | nil => rfl
+    | cons c r =>
+      obtain ⟨ha, _⟩ := hs c rfl
+      have : isAlpha_ c = false := by
+        simp only [isAlnum_, Bool.or_eq_false_iff] at ha
+        exact ha.1
+      simp [mIdent, this]
+  have h4 : mDotIdent ('.' :: cs) = some (['.'], cs) := by simp [mDotIdent, h3]
+  simp only [step, h1, h2, h4]
+
+/-- a module name: an identifier, or a dot followed by one, or a dot -/
 def SafeMod (m : String) : Prop :=
-  (∃ w, m.toList = '.' :: w ∧ IdentShape w) ∨ (m.toList.head? ≠ some '.' ∧ LegalName m)
+  (∃ w, m.toList = '.' :: w ∧ IdentShape w) ∨ (m.toList.head? ≠ some '.' ∧ LegalName m) ∨ m = "."
 
 theorem spell_mod {m : String} (hm : SafeMod m) {cs : List Char} {ts : List Tok} (hd : Delim cs) (h : Spells cs ts) :
     Spells (m.toList ++ cs) (modTok m :: ts) := by
-  rcases hm with ⟨w, hw, hsh⟩ | ⟨hnd, hl⟩
+  rcases hm with ⟨w, hw, hsh⟩ | ⟨hnd, hl⟩ | rfl
+  rotate_left
+  rotate_left
+  · have hst := step_dot hd.stopId
+    exact Spells.tok (c := '.') (by decide) hst h
   · have hst := step_dotident hsh hd.stopId
     have hmod : modTok m = .DOTIDENTIFIER m := by simp [modTok, hw]
     have hof : String.ofList ('.' :: w) = m := by rw [← hw, String.ofList_toList]
